@@ -22,6 +22,15 @@ Proof.
       destruct (l >? 9223372036854775807) eqn:E3; [apply Z.gtb_lt in E3; lia | reflexivity].
 Qed.
 
+(* TL2CalculateSize / TL2PutSize: the width of the prefix TL2WriteSize emits, by length class *)
+Lemma write_size_width l :
+  zlen (write_size l) = (if l <? 254 then 1 else if l <? 254 + 65536 then 3 else 9).
+Proof.
+  unfold write_size, zlen.
+  destruct (l <? 254); [reflexivity|].
+  destruct (l <? 254 + 65536); cbn [length]; rewrite le_enc_length; reflexivity.
+Qed.
+
 Lemma write_size_nonempty l : write_size l <> [].
 Proof. unfold write_size. destruct (l <? 254); [|destruct (l <? 254 + 65536)]; discriminate. Qed.
 
